@@ -1,4 +1,5 @@
 pub mod ast;
 pub mod eval;
+pub mod inject;
 pub mod pgen;
 pub mod rename;
